@@ -263,6 +263,9 @@ pub struct GenOps {
     no_saves: bool,
     /// what the step just generated would define (fork phase: fed to the sibling's generator)
     last_defines: Vec<(String, &'static str)>,
+    /// text of the last line each side of a fork submitted successfully ("echo" traffic)
+    last_ok_text: std::collections::BTreeMap<String, String>,
+    pending_text: String,
 }
 
 impl GenOps {
@@ -411,8 +414,25 @@ impl OpSource for GenOps {
         } else {
             self.gen_c.as_mut().unwrap()
         };
-        let gi = g.next_input();
+        let mut gi = g.next_input();
+        // echo traffic: one side submits the very text the sibling submitted last (same
+        // identifiers, same expressions, different session state) — whatever is keyed by
+        // identifier or expression and accidentally shared between the copies is hit from both
+        let sibling = if who == "P" { "C" } else { "P" };
+        if self.dropped.is_none()
+            && self.rng.chance(0.15)
+            && let Some(t) = self.last_ok_text.get(sibling)
+            && !t.contains("use sim::")
+        {
+            gi.text = t.clone();
+            gi.fault = None;
+            gi.fault_pos = None;
+            gi.unavailable.clear();
+            gi.set_modules.clear();
+            gi.features.insert("echo");
+        }
         let step = Step::from_gen(&gi);
+        self.pending_text = gi.text.clone();
         self.last_session = who.to_string();
         self.last_defines = gi.defines.clone();
         Some(Op::Line {
@@ -429,6 +449,9 @@ impl OpSource for GenOps {
                 }
             }
             _ => self.gen_p.feedback(ok),
+        }
+        if self.forked && ok && (session == "P" || session == "C") {
+            self.last_ok_text.insert(session.to_string(), std::mem::take(&mut self.pending_text));
         }
         if self.forked && ok && self.dropped.is_none() {
             // collisions: the sibling session is made to define the SAME names, differently
@@ -1351,6 +1374,8 @@ impl Prop for C07 {
                 after_info: false,
                 no_saves: true,
                 last_defines: vec![],
+            last_ok_text: Default::default(),
+            pending_text: String::new(),
                 rng,
             };
             // generate the lines against an in-process session (feedback), then cross-check
@@ -1405,6 +1430,8 @@ impl Prop for C07 {
             after_info: false,
             no_saves: false,
             last_defines: vec![],
+            last_ok_text: Default::default(),
+            pending_text: String::new(),
             rng,
         };
         let mut res = ExecResult::default();
